@@ -156,6 +156,11 @@ func Or(xs ...*Term) *Term {
 		return False
 	case 1:
 		return out[0]
+	case 2:
+		// (g & c) | (g & !c)  ==>  g     (guards of the two arms of a branch joining again)
+		if r := factorOr(out[0], out[1]); r != nil {
+			return r
+		}
 	}
 	return mk("or", BoolSort, 0, "", [2]int{}, out...)
 }
@@ -392,3 +397,44 @@ func FPBin(op string, a, b *Term) *Term {
 	return mk("fp."+op+" RNE", FPSort, 0, "", [2]int{}, a, b)
 }
 func FPCmp(op string, a, b *Term) *Term { return mk("fp."+op, BoolSort, 0, "", [2]int{}, a, b) }
+
+func conjuncts(t *Term) []*Term {
+	if t.op == "and" {
+		return t.args
+	}
+	return []*Term{t}
+}
+
+func factorOr(a, b *Term) *Term {
+	ca, cb := conjuncts(a), conjuncts(b)
+	if len(ca) > 24 || len(cb) > 24 {
+		return nil
+	}
+	inB := map[*Term]bool{}
+	for _, x := range cb {
+		inB[x] = true
+	}
+	var common, ra, rb []*Term
+	inCommon := map[*Term]bool{}
+	for _, x := range ca {
+		if inB[x] {
+			common = append(common, x)
+			inCommon[x] = true
+		} else {
+			ra = append(ra, x)
+		}
+	}
+	for _, x := range cb {
+		if !inCommon[x] {
+			rb = append(rb, x)
+		}
+	}
+	if len(ra) == 1 && len(rb) == 1 && ra[0] == Not(rb[0]) {
+		return And(common...)
+	}
+	if len(ra) == 0 || len(rb) == 0 {
+		// one side implies the other: a | (a & x) == a
+		return And(common...)
+	}
+	return nil
+}
